@@ -454,8 +454,13 @@ def main(run, replay=None):
         return evaluate(run, cs, tag="%s_%d" % (tag, tagc[0]))
 
     for ci, st, detail, sig in failing:
-        grouped = st in ("WRONG_DERIVATIVE", "EXCEPTION", "NAME_DEPENDENT", "NEWTON_EXCEPTION") and deriv_under_power(recs[ci]["case"])
-        key = json.dumps({"kind": "series-expansion"} if grouped else sig, sort_keys=True)
+        c0 = recs[ci]["case"]
+        if st in ("EXCEPTION", "NAME_DEPENDENT", "NEWTON_EXCEPTION") and sig.get("exc") == "InconsistentAssumptions" and L8.power_of_dot(c0):
+            key = json.dumps({"kind": "constructor-exception"})
+        elif st in ("WRONG_DERIVATIVE", "EXCEPTION", "NAME_DEPENDENT", "NEWTON_EXCEPTION") and deriv_under_power(c0):
+            key = json.dumps({"kind": "series-expansion"})
+        else:
+            key = json.dumps(sig, sort_keys=True)
         if key in reported:
             continue
         reported.add(key)
@@ -465,7 +470,12 @@ def main(run, replay=None):
             best, best_rec = L8.shrink_batched(eval9, key9, best, rec, cands9)
         found = st not in ("ORACLE_CONTRADICTS_PROOF",)
         sig = dict(sig)
-        if st in ("WRONG_DERIVATIVE", "EXCEPTION", "NAME_DEPENDENT", "NEWTON_EXCEPTION") and deriv_under_power(best):
+        if st in ("EXCEPTION", "NAME_DEPENDENT", "NEWTON_EXCEPTION") and sig.get("exc") == "InconsistentAssumptions" \
+                and L8.power_of_dot(best):
+            # sympy's assumption system on a Dot / Inner node below a negative or fractional power: raised by the
+            # constructor's own linearity check inside linearize (the finding of C08), for some auxiliary names only
+            sig = {"kind": "constructor-exception", "pattern": "dot-under-negative-or-fractional-power"}
+        elif st in ("WRONG_DERIVATIVE", "EXCEPTION", "NAME_DEPENDENT", "NEWTON_EXCEPTION") and deriv_under_power(best):
             sig = {"kind": "series-expansion", "pattern": "non-polynomial-power-of-field-and-derivative-object"}
         run.report(sig, "C09: %s" % (detail or st), best,
                    observed={"implementation": best_rec["res"], "coq": best_rec.get("coq")},
